@@ -179,24 +179,186 @@ def find_def(rx, what):
     return hits[0]
 
 
+def _top_level_open_brace(txt):
+    """Index of the first `{` outside (), [] — or -1."""
+    depth = 0
+    for i, c in enumerate(txt):
+        if c in '([':
+            depth += 1
+        elif c in ')]':
+            depth -= 1
+        elif c == '{' and depth == 0:
+            return i
+    return -1
+
+
 def struct_statements(body):
-    """Top-level member statements of a struct body (function definitions dropped)."""
+    """Top-level statements of a struct body, each tagged: ('stmt', text) for `…;` and
+    ('func', text) for a member function / constructor definition `…(…) [const noexcept …] {…}`
+    (recognised by a parameter list directly in front of the body's `{`; a brace *initialiser*
+    `T x{…};` is part of its statement)."""
     out, depth, cur = [], 0, []
     for c in body:
         if c in '({[':
             depth += 1
         elif c in ')}]':
             depth -= 1
+            if depth < 0:
+                raise TErr('struct body: unbalanced brackets')
         cur.append(c)
         if depth == 0 and c == ';':
-            out.append(''.join(cur[:-1]).strip()); cur = []
+            t = ''.join(cur[:-1]).strip()
+            if t:
+                out.append(('stmt', t))
+            cur = []
         elif depth == 0 and c == '}':
             txt = ''.join(cur).strip()
-            if re.search(r'\)\s*(const)?\s*(noexcept)?\s*\{', txt) and not txt.startswith('enum'):
-                cur = []      # member function definition
+            ob = _top_level_open_brace(txt)
+            head = txt[:ob].rstrip() if ob >= 0 else ''
+            head = re.sub(r'(?:\s*\b(?:const|noexcept|override|final|volatile)\b|\s*&{1,2})+$', '', head)
+            if head.endswith(')') and not re.match(r'\s*(enum|struct|union|class)\b', txt):
+                out.append(('func', txt))      # member function / constructor definition
+                cur = []
+            elif re.search(r'\)(?:\s|\bconst\b|\bnoexcept\b)*->\s*[^{]*$', txt[:ob] if ob >= 0 else ''):
+                out.append(('func', txt))      # trailing return type
+                cur = []
     if ''.join(cur).strip():
         raise TErr('struct body: trailing text ' + ''.join(cur).strip()[:80])
-    return [s for s in out if s]
+    return out
+
+
+_TOK = re.compile(r'\s*(?:(?P<id>' + IDENT + r')|(?P<num>\d[\w.\']*)|(?P<str>"(?:[^"\\]|\\.)*"|\'(?:[^\'\\]|\\.)*\')|'
+                  r'(?P<op>::|->|<<|>>|<=|>=|==|!=|&&|\|\||\[\[|\]\]|.))', re.S)
+_REJECT_LEADING = {'static': 'static member', 'inline': 'inline (static) member', 'constexpr': 'constexpr (static) member',
+                   'mutable': 'mutable member', 'friend': 'friend declaration', 'template': 'member template',
+                   'typedef': 'typedef', 'struct': 'nested struct', 'union': 'nested / anonymous union',
+                   'class': 'nested class', 'virtual': 'virtual member function', 'explicit': 'constructor declaration',
+                   'public': 'access specifier', 'private': 'access specifier', 'protected': 'access specifier',
+                   'alignas': 'alignas specifier', 'extern': 'extern declaration', 'thread_local': 'thread_local member',
+                   'operator': 'operator declaration'}
+
+
+def parse_member_statement(sname, st):
+    """One `…;` statement of a parameter struct body -> list of (member name, C++ type text).
+
+    Recognised: `T name;`, `T name = init;`, `T name{init};`, several declarators sharing the type
+    (`T a, b = 1;` -> two fields).  Everything else raises (broken tie): bit-fields, arrays,
+    pointer / reference / function declarators, static / constexpr / mutable members, nested
+    structs / unions, member function declarations, access specifiers, attributes."""
+    toks = []
+    pos = 0
+    while pos < len(st):
+        m = _TOK.match(st, pos)
+        if not m or m.end() == pos:
+            break
+        if m.group(0).strip():
+            kind = 'id' if m.group('id') else 'num' if m.group('num') else 'str' if m.group('str') else 'op'
+            toks.append((kind, m.group(kind), m.start(kind), m.end(kind)))
+        pos = m.end()
+
+    def bad(why):
+        return TErr(f'struct {sname}: {why}: {re.sub(chr(10), " ", st)[:100]!r}')
+
+    if not toks:
+        raise bad('empty member statement')
+    if toks[0][1] in _REJECT_LEADING:
+        raise bad(_REJECT_LEADING[toks[0][1]] + ' in a parameter struct is not understood')
+    if toks[0][1] == '[[':
+        raise bad('attribute on a member is not understood')
+    # split into declarators at top-level commas; find type / name / initialiser of each
+    decls, cur, depth, adepth, in_init = [], [], 0, 0, False
+    for t in toks:
+        k, v = t[0], t[1]
+        if k == 'op':
+            if v in '([{' or v == '[[':
+                depth += 1
+            elif v in ')]}' or v == ']]':
+                depth -= 1
+            elif v == '<' and depth == 0 and not in_init and cur and cur[-1][0] == 'id':
+                adepth += 1
+            elif v == '>' and depth == 0 and not in_init and adepth > 0:
+                adepth -= 1
+            elif v == '>>' and depth == 0 and not in_init and adepth > 1:
+                adepth -= 2
+            elif v == '=' and depth == 0 and adepth == 0:
+                in_init = True
+            elif v == ',' and depth == 0 and adepth == 0:
+                decls.append(cur); cur = []; in_init = False
+                continue
+        cur.append(t)
+    decls.append(cur)
+    if depth != 0 or adepth != 0:
+        raise bad('unbalanced brackets / template arguments in a member declaration')
+
+    def split_decl(d):
+        """tokens of one declarator -> (tokens before the initialiser, has initialiser)"""
+        depth = adepth = 0
+        for i, (k, v, _, _) in enumerate(d):
+            if k == 'op':
+                if v == '=' and depth == 0 and adepth == 0:
+                    return d[:i], True
+                if v == '{' and depth == 0 and adepth == 0:
+                    # brace initialiser: must close at the very end
+                    dd = 0
+                    for j in range(i, len(d)):
+                        if d[j][1] == '{':
+                            dd += 1
+                        elif d[j][1] == '}':
+                            dd -= 1
+                            if dd == 0 and j != len(d) - 1:
+                                raise bad('text after a brace initialiser')
+                    return d[:i], True
+                if v in '([':
+                    depth += 1
+                elif v in ')]':
+                    depth -= 1
+                elif v == '<' and i > 0 and d[i - 1][0] == 'id':
+                    adepth += 1
+                elif v == '>' and adepth > 0:
+                    adepth -= 1
+                elif v == '>>' and adepth > 1:
+                    adepth -= 2
+        return d, False
+
+    fields = []
+    first, _ = split_decl(decls[0])
+    if len(first) < 2 or first[-1][0] != 'id':
+        # e.g. `int a : 3`, `int a[4]`, `void f()`, `int (*p)`
+        tail = ''.join(v for _, v, _, _ in first[-3:])
+        if any(v == ':' for _, v, _, _ in first):
+            raise bad('bit-field member')
+        if any(v == '[' for _, v, _, _ in first):
+            raise bad('array member')
+        if any(v == '(' for _, v, _, _ in first):
+            raise bad('member function declaration / function-style declarator')
+        raise bad(f'member declaration does not end in a name (…{tail})')
+    tytoks = first[:-1]
+    for k, v, _, _ in tytoks:
+        if k == 'op' and v in ('(', ')', '[', ']', ':', '{', '}', '=', '[[', ']]'):
+            raise bad({'(': 'member function declaration / function-style declarator', ')': 'member function declaration',
+                       '[': 'array member', ']': 'array member', ':': 'bit-field member'}.get(v, 'member declaration not understood'))
+        if k in ('num', 'str') and not any(x[1] == '<' for x in tytoks):
+            raise bad('literal inside the member type')
+        if k == 'id' and v in _REJECT_LEADING:
+            raise bad(_REJECT_LEADING[v] + ' in a parameter struct is not understood')
+    if tytoks[-1][0] == 'op' and tytoks[-1][1] in ('*', '&', '&&'):
+        pass                                        # pointer / reference member: type text keeps it -> opaque kind
+    ty = re.sub(r'\s+', ' ', st[tytoks[0][2]:tytoks[-1][3]]).strip()
+    if tytoks[-1][0] == 'id' and tytoks[-1][1] in ('const', 'volatile'):
+        pass
+    fields.append((first[-1][1], ty))
+    shared = ty
+    if len(decls) > 1 and (tytoks[-1][0] == 'op' and tytoks[-1][1] in ('*', '&', '&&')):
+        raise bad('several declarators with pointer / reference declarators')
+    for d in decls[1:]:
+        head, _ = split_decl(d)
+        if len(head) != 1 or head[0][0] != 'id':
+            raise bad('further declarator of a multi-declarator member is not a plain name')
+        fields.append((head[0][1], shared))
+    names = [n for n, _ in fields]
+    if len(set(names)) != len(names):
+        raise bad('member declared twice in one statement')
+    return fields
 
 
 INT_RANGES = {
@@ -232,24 +394,31 @@ def kind_of(ty, table_structs, table_enums):
 def parse_struct(name, table_structs, table_enums):
     p, s, m = find_def(r'\bstruct\s+' + re.escape(name) + r'\s*\{', f'struct {name}')
     close = cp.match_brace(s, m.end() - 1)
+    if re.search(r'\bstruct\s+' + re.escape(name) + r'\s*(?:final\s*)?:', s):
+        raise TErr(f'struct {name}: base classes are not understood (inherited members would be missed)')
     fields = []
     local_enums = []
-    for st in struct_statements(s[m.end():close]):
-        if re.match(r'USING_ALPAQA_CONFIG\s*\(', st) or st.startswith('static_assert') or st.startswith('using '):
+    for tag, st in struct_statements(s[m.end():close]):
+        if tag == 'func':
+            continue                       # member function / constructor definition: not a field
+        if re.match(r'USING_ALPAQA_CONFIG\s*\(', st) or re.match(r'static_assert\s*\(', st):
             continue
-        me = re.fullmatch(r'enum\s+(' + IDENT + r')\s*\{(.*)\}\s*(' + IDENT + r')\s*(=\s*.+)?', st, flags=re.S)
+        if re.match(r'using\s+' + IDENT + r'\s*=', st) or re.match(r'using\s+(?:typename\s+)?[\w:<> ]+$', st):
+            continue                       # type alias / using-declaration: declares no member
+        me = re.fullmatch(r'enum\s+(?:class\s+)?(' + IDENT + r')\s*\{(.*)\}\s*(' + IDENT + r')\s*(=\s*[^,;]+)?', st, flags=re.S)
         if me:
             local_enums.append((me.group(1), parse_enumerators(me.group(2), f'{name}::{me.group(1)}')))
             qual = f'{name}::{me.group(1)}'
             fields.append((me.group(3), qual,
                            ('enum', qual) if qual in table_enums else ('opaque', f'enum {me.group(1)}')))
             continue
-        mf = re.fullmatch(r'(?P<ty>.+?)\s+(?P<name>' + IDENT + r')\s*(=\s*(?P<init>.+)|\{(?P<binit>.*)\})?',
-                          st, flags=re.S)
-        if not mf or '(' in mf.group('ty'):
-            raise TErr(f'struct {name}: member statement not understood: {st[:100]!r}')
-        ty = re.sub(r'\s+', ' ', mf.group('ty')).strip()
-        fields.append((mf.group('name'), ty, kind_of(ty, table_structs, table_enums)))
+        if re.match(r'enum\b', st):
+            raise TErr(f'struct {name}: enum declaration not understood: {st[:100]!r}')
+        for fname, ty in parse_member_statement(name, st):
+            fields.append((fname, ty, kind_of(ty, table_structs, table_enums)))
+    names = [f[0] for f in fields]
+    if len(set(names)) != len(names):
+        raise TErr(f'struct {name}: member name read twice')
     return {'name': name, 'file': os.path.relpath(p, INC), 'fields': fields, 'local_enums': local_enums}
 
 
@@ -361,10 +530,9 @@ def parse_vff():
     if ppos < w < pclose:                       # set_param(v.value.emplace(), s): argument first
         if not re.match(r'v\.value\s*\.\s*emplace\s*\(\s*\)', wtxt):
             raise TErr('params.cpp: set_param(vec_from_file&): write inside the parse call is not `v.value.emplace()`')
-        order = [(w, 'emplace'), (ppos + 0.5 + w, 'parse'), (spos, 'size')]
-        order = ['emplace', 'parse'] + (['size'] if spos > pclose else [])
         if spos < pclose:
             raise TErr('params.cpp: set_param(vec_from_file&): size check before the parse')
+        order = ['emplace', 'parse', 'size']
     else:
         order = [t for _, t in sorted([(w, 'emplace' if re.match(r'v\.value\s*\.\s*emplace\s*\(\s*\)', wtxt) else 'store'),
                                        (ppos, 'parse'), (spos, 'size')])]
@@ -486,6 +654,11 @@ def emit_lean(d):
     o.append('def durCfg : DurCfg := { trim := %s.toList, stop := %s.toList, units := [%s] }' % (
         lstr(d['trim']), lstr(d['stop']), ', '.join('(%s, %d)' % (lstr(u), ns) for u, ns in d['units'])))
     o.append('')
+    o.append('/-- `set_param(vec_from_file&, …)` (params.cpp): actions of the direct branch and of the\n'
+             '    `@file` branch in execution order -/')
+    o.append('def vffDirectSteps : List String := [' + ', '.join(lstr(x) for x in d['vff_direct']) + ']')
+    o.append('def vffFileSteps : List String := [' + ', '.join(lstr(x) for x in d['vff_file']) + ']')
+    o.append('')
     # the dispatch environment: table entries with the kind of the member they write
     o.append('/-- dispatch environment of the model: each table entry with the kind of its member\n'
              '    (from the struct definition), each enum table entry with its value -/')
@@ -507,11 +680,6 @@ def emit_lean(d):
             if n not in ev:
                 raise TErr(f'ENUM_TABLE({t}): enumerator {n} does not exist (would not compile)')
         en_items.append('(%s, [%s])' % (lstr(t), ', '.join('(%s, %d)' % (lstr(n), ev[n]) for n in ents)))
-    o.append('/-- `set_param(vec_from_file&, …)` (params.cpp): actions of the direct branch and of the\n'
-             '    `@file` branch in execution order -/')
-    o.append('def vffDirectSteps : List String := [' + ', '.join(lstr(x) for x in d['vff_direct']) + ']')
-    o.append('def vffFileSteps : List String := [' + ', '.join(lstr(x) for x in d['vff_file']) + ']')
-    o.append('')
     o.append('def env : Env where\n  structs := ' + llist(st_items) + '\n  enums := ' + llist(en_items) +
              '\n  vffEmplaceFirst := vffDirectSteps.head? == some "emplace"')
     o.append('')
